@@ -433,7 +433,7 @@ padded_reject!(t_padded_reject_ige_b4, 48, ige, U4, 4, U8, 8);
 stream_b2b_reject!(t_stream_reject_ctr128be_b16, 100, mk_ctr128be_b16, 16);
 stream_total!(t_total_ctr32le_b4, 48, core_ctr32le, u32, U4, 4, 13);
 stream_total!(t_total_ctr64be_b8, 64, core_ctr64be, u64, U8, 8, 17);
-stream_total!(t_total_ctr128be_b16, 100, core_ctr128be, u128, U16, 16, 33);
+stream_total!(t_total_ctr128be_b16, 100, core_ctr128be, u128, U16, 16, 17);
 stream_total!(t_total_ctr128le_b16, 100, core_ctr128le, u128, U16, 16, 17);
 cts_total!(t_total_cts_cbc_cs2_b1, 48, CbcCs2, U1, 1, U3, 5);
 cts_total!(t_total_cts_ecb_cs1_b1, 48, EcbCs1, U1, 1, U3, 5);
